@@ -50,7 +50,7 @@ ASSUMPTIONS = [
     "ref.all_trees(n) yields every binary tree over n leaves exactly once ((2n-3)!! counted per network)",
     "pure-python optimize_optimal (cotengrust not installed); integer k only for combo/limit",
 ]
-REQUIRED_MONITORS = [
+REQUIRED_MONITORS = ["preset_tree_interface", 
     "optimal_vs_exhaustive",
     "trees_enumerated",
     "outer_free_cases",
@@ -446,6 +446,13 @@ def call_entry(net, cfg):
             raise ValueError("the presets minimise flops")
         name = "optimal-outer" if cfg["search_outer"] else "optimal"
         return "linear", ctg.array_contract_path(inputs, output, sd, optimize=name, cache=False)
+    if e in ("preset_tree", "preset_dp_tree"):
+        # the same presets through the TREE interface (a separately registered callable per preset name)
+        if cfg["minimize"] != "flops":
+            raise ValueError("the presets minimise flops")
+        name = "optimal-outer" if cfg["search_outer"] else ("optimal" if e == "preset_tree" else "dp")
+        tree = ctg.array_contract_tree(inputs, output, sd, optimize=name)
+        return "children", ct.children_of(tree)
     raise ValueError(e)
 
 
@@ -601,9 +608,12 @@ def run_network(rep, net, cs, tier):
                 _one(rep, net, orc, cfg)
     # the presets (flops, default cap)
     for outer in (False, True):
-        cfg = {"minimize": "flops", "search_outer": outer, "cost_cap": 2, "entry": "preset", "use_ssa": False, "simplify": True, "case_seed": cs}
-        rep.count("cost_cap", "two")
-        _one(rep, net, orc, cfg)
+        for entry in ("preset", "preset_tree", "preset_dp_tree"):
+            cfg = {"minimize": "flops", "search_outer": outer, "cost_cap": 2, "entry": entry, "use_ssa": False, "simplify": True, "case_seed": cs}
+            rep.count("cost_cap", "two")
+            if entry != "preset":
+                rep.mon("preset_tree_interface")
+            _one(rep, net, orc, cfg)
 
 
 def _one(rep, net, orc, cfg):
